@@ -363,6 +363,54 @@ def less_formula(fn, leaf, quantities):
     return None
 
 
+def update_return_table(prog):
+    """{'first': set of constants returned by search_frontier::update when the vertex was unvisited, 'lowered': ... when it was visited and the new
+    label is less, 'kept': ... otherwise}; None if the function returns nothing / something else"""
+    for fn in prog.fns('parmcb::detail::search_frontier::update'):
+        cfg = fn.cfg
+        wk = ex.key_of_var(fn.param_ids[0]) if hasattr(ex, 'key_of_var') else None
+        wv = fn.param_ids[0]
+
+        def atomize(leaf):
+            s = resolve_bool(fn, leaf).strip_all()
+            if s.k == 'CallExpr' and s.callee and s.callee['g'] == 'std::get' and s.args():
+                inner = s.args()[0].strip_all()
+                if inner.k == 'CallExpr' and inner.callee and inner.callee['g'] == 'boost::get' and len(inner.args()) == 2 and ex.var_of(inner.args()[1]) == wv:
+                    return ex.f_atom('visited')
+            if s.k == 'CXXOperatorCallExpr' and s.op == '()' and len(s.c) == 4:
+                b = s.c[3].strip_all()
+                if b.k == 'CallExpr' and b.callee and b.callee['g'] == 'boost::get' and len(b.args()) == 2 and ex.var_of(b.args()[1]) == wv:
+                    return ex.f_atom('lt')
+            if s.k in ('BinaryOperator', 'CXXOperatorCallExpr') and s.op in ('==', '!='):
+                ops = s.c if s.k == 'BinaryOperator' else s.c[1:]
+                if len(ops) == 2 and wv in (ex.var_of(ops[0]), ex.var_of(ops[1])):
+                    f = ex.f_atom('is_source')
+                    return f if s.op == '==' else ex.f_not(f)
+            return None
+        rets = ex.returns_of(fn)
+        table = {'first': set(), 'lowered': set(), 'kept': set()}
+        for r in rets:
+            if not r.c or r.c[0].strip_all().cv is None:
+                return None
+            val = bool(r.c[0].strip_all().cv)
+            pc = guards_formula(cfg, r, atomize)
+            atoms = ex.f_atoms(pc)
+            others = [a for a in atoms if a not in ('visited', 'lt', 'is_source')]
+            for ctx, envc in (('first', {'visited': False, 'lt': False}), ('first', {'visited': False, 'lt': True}),
+                              ('lowered', {'visited': True, 'lt': True}), ('kept', {'visited': True, 'lt': False})):
+                for vals in itertools.product((False, True), repeat=len(others)):
+                    e = dict(zip(others, vals))
+                    e.update(envc)
+                    e['is_source'] = False
+                    e = {k: v for k, v in e.items() if k in atoms}
+                    if ex.f_eval(pc, e):
+                        table[ctx].add(val)
+        if not rets or not any(table.values()):
+            return None
+        return table
+    return None
+
+
 def check_pruning(rep, prog):
     n = 0
     for fn in prog.fns('parmcb::bidirectional_signed_dijkstra'):
@@ -515,7 +563,14 @@ def check_pruning(rep, prog):
         for c in main.body.walk():
             if c.k == 'ContinueStmt':
                 pc = guards_formula(cfg, c, atomize)
-                if ('lt', 'c', 'limit') in ex.f_atoms(pc):
+                # only a `continue` that is itself guarded by the limit comparison (an enclosing condition mentions it), not one that merely
+                # comes after it on the path
+                direct = False
+                for (c_, _pol) in ex.ast_conditions(c):
+                    f_ = ex.formula(c_, lambda leaf: atomize(leaf) or ex.f_atom(('opaque', leaf.i)))
+                    if f_ is not None and ('lt', 'c', 'limit') in ex.f_atoms(f_):
+                        direct = True
+                if direct and ('lt', 'c', 'limit') in ex.f_atoms(pc):
                     implies_not_less(c, 'c', 'limit', 'a neighbour is not inserted only when its tentative distance is not less than the weight limit')
         # (4) best meeting point
         for d in main.body.walk():
@@ -539,6 +594,43 @@ def check_pruning(rep, prog):
                         taken_when_less = True
                     if ex.f_eval(pc, e0):
                         taken_when_not = True
+                # (5) the meeting test must run after *every* change of w's label: if it is conditioned on the value returned by
+                # search_frontier::update, that value must be the same for "first found" and "label lowered"
+                upd_atoms = [a_ for a_ in atoms if isinstance(a_, tuple) and a_[0] == 'opaque' and any(
+                    x.k == 'CXXMemberCallExpr' and x.callee and x.callee['g'].endswith('search_frontier::update') for x in [fn.nodes[a_[1]].strip_all()] + list(fn.nodes[a_[1]].walk()))]
+                for ua in upd_atoms:
+                    whatm = 'the meeting test runs after every change of the label of w (first discovery and decrease-key alike)'
+                    need = set()
+                    others_ = [x for x in atoms if x != ua]
+                    for vals in itertools.product((False, True), repeat=len(others_)):
+                        for uv in (False, True):
+                            e = dict(zip(others_, vals))
+                            e[ua] = uv
+                            if ex.f_eval(pc, e):
+                                need.add(uv)
+                    if len(need) != 1:
+                        continue
+                    need_v = list(need)[0]
+                    # is the leaf itself negated inside the opaque node?  the atom is the whole leaf, so evaluate the call's value:
+                    leaf = fn.nodes[ua[1]].strip_all()
+                    neg = False
+                    while leaf.k == 'UnaryOperator' and leaf.op == '!':
+                        neg = not neg
+                        leaf = leaf.c[0].strip_all()
+                    want_ret = need_v != neg
+                    table = update_return_table(prog)
+                    if table is None:
+                        rep.undecided('R02i', d, fn, whatm, 'return value of search_frontier::update not understood')
+                        continue
+                    first, lowered = table.get('first'), table.get('lowered')
+                    if first == {want_ret} and lowered == {want_ret}:
+                        rep.ok('R02i', d, fn, whatm, 'update() returns %s whenever it stored a label' % want_ret)
+                    else:
+                        rep.violation('R02i', d, fn, whatm,
+                                      'the meeting test is only reached when update() returns %s, but update() returns %s on first discovery and %s when it '
+                                      'lowers an existing label: a shorter path through w found by decrease-key is never combined with the other frontier, '
+                                      'the search keeps a heavier meeting point' % (want_ret, sorted(first or []), sorted(lowered or [])),
+                                      key='R02i|%s|meeting-after-update' % fn.g)
                 if taken_when_less and not taken_when_not:
                     rep.ok('R02i', d, fn, what)
                 else:
